@@ -182,8 +182,9 @@ pub fn check_batch(cx: &mut Cx, piece: Piece, from: usize, to: u64, class: &'sta
 
 pub fn run(cfg: &Cfg) -> Result<Outcome, String> {
     let stats = run_sharded(cfg, |cx| {
-        let n_random = if cx.is_thorough() { 6000 } else { 600 };
-        for from in cx.mine(64) {
+        let n_random = if cx.miri { 1 } else if cx.is_thorough() { 6000 } else { 600 };
+        let origins: Vec<usize> = if cx.miri { vec![8, 52] } else { cx.mine(64) };
+        for from in origins {
             for piece in Piece::ALL {
                 for (to, class) in dest_sets(cx, n_random) {
                     check_batch(cx, piece, from, to, class);
